@@ -37,6 +37,13 @@ def gen_cases(tier, seed):
             gopts = {"variant": int(rng.choice([2, 3]))}  # all-fixed / unconstrained: empty reduced systems, no bound columns
         case = work.mk_case(fam, [seed, k], cfgd, gopts=gopts)
         case["y0"] = "rand" if rng.random() < 0.4 else "none"
+        if fam in ("QP", "NLP") and rng.random() < 0.35:
+            # restricted domain: every evaluation outside a ball around the start is non-finite
+            case["region_radius"] = float(rng.uniform(0.3, 2.5))
+            # either everything fails outside the ball, or only the objective value (like x - log x, whose
+            # derivatives stay finite): then only reporting ever evaluates the failing quantity at rejected points
+            case["region_components"] = ["obj"] if rng.random() < 0.5 else ["obj", "obj_grad", "cons", "cons_jac"]
+            case["cfg"]["lamb_init"] = float(10.0 ** rng.uniform(-3, 0))   # long first steps overshoot
         case["exhaustive_display"] = bool(short)
         case["nvariants"] = 10 if tier == "quick" else 14
         cases.append(case)
@@ -69,7 +76,14 @@ def one_run(case, obs):
     if obs:
         cfgd["collect_path"] = obs["path"]
         cfgd["report_rcond"] = obs["rcond"]
-    p = work.prepare(dict(case, cfg=cfgd), record_sites=False, keep_args=False)
+    fault = None
+    if "region_radius" in case:
+        p0 = work.prepare(dict(case, cfg=cfgd), record_sites=False, keep_args=False)
+        x0r = work.x0_array(p0)
+        rad = case["region_radius"]
+        fault = mon.Fault(pred=lambda x, x0r=x0r, rad=rad: float(np.linalg.norm(x - x0r)) > rad,
+                          components=case.get("region_components", ["obj", "obj_grad", "cons", "cons_jac"]))
+    p = work.prepare(dict(case, cfg=cfgd), fault=fault, record_sites=False, keep_args=False)
     if obs:
         p.params.display_interval = obs["interval"]
         clock = mon.VirtualClock(display_bits=obs["bits"], display_interval=obs["interval"])
@@ -81,6 +95,7 @@ def one_run(case, obs):
         out = mon.run_solve(p.rec, p.params, p.x0, p.y0, clock=clock)
         out.log_chars = 0
     out.clock = clock
+    out.faults_fired = len(fault.fired) if fault else 0
     return p, out
 
 
@@ -113,6 +128,8 @@ def run_case(case):
         bump("callback_invocations", getattr(out.solver, "extra_calls", 0) if out.solver else 0)
         bump("exhaustive_display_patterns", int(bool(obs.get("exhaustive"))))
         bump("log_chars", out.log_chars)
+        bump("observed_runs_restricted_domain", int("region_radius" in case))
+        bump("non_finite_evaluations_in_observed_runs", out.faults_fired)
         key = dict(key0, log=obs["log"], rcond=obs["rcond"], path=obs["path"], displayed=bool(out.clock.displayed))
 
         def bad(kind, what):
@@ -157,11 +174,12 @@ def finalize(agg, tier):
         "rule": "bare run (log CRITICAL, no displayed row, no user callbacks, no path, no rcond) vs observed runs of the same "
                 "(spec, algorithmic configuration, start): fixed extreme settings (DEBUG + every row displayed, interval 0 / "
                 "1e-16, 3 callbacks + path + rcond, ...) plus random ones; for base runs of <= 7 trial steps all 2^T-1 "
-                "non-empty displayed-row patterns are enumerated through the virtual clock; an observed run is "
+                "non-empty displayed-row patterns are enumerated through the virtual clock; a third of the QP/NLP base problems have a restricted domain (every evaluation outside a ball around the start is non-finite, long first steps) so that displayed rows touch failing points; an observed run is "
                 "non-trivial when its trajectory could be compared step by step; (base run, observer setting) pairs are "
                 "distinct by construction",
         "floors": {"observed_runs": 800, "displayed_rows": 2000, "log_DEBUG": 200, "rcond_runs": 200, "path_runs": 200,
-                   "callback_invocations": 2000, "exhaustive_display_patterns": 100, "log_chars": 100000},
+                   "callback_invocations": 2000, "exhaustive_display_patterns": 100, "log_chars": 100000,
+                   "observed_runs_restricted_domain": 100, "non_finite_evaluations_in_observed_runs": 200},
         "assumptions": ["the display schedule is the only wall-clock dependence of a solve; it is scripted through the "
                         "virtual clock (pygradflow.timer.time)"],
     }
